@@ -110,14 +110,17 @@ def check_cfg(ctx, fx, cfg):
             ctx.require(all(r.kind == "arg" and not r.proj for r in rs) and rs, "R12.2", "buffer-unmodified:%s@%s" % (fn_, cfg), "mpsc::channel must be created with exactly the capacity given: roots %s" % sorted(map(str, rs)), fn=fn_, site=t["l"])
             # the waiting closure over the bounded sender (wherever it is written)
             for kind, cf, key in subs:
-                if kind == "waiting" and cf and any("futures_channel::mpsc::Sender<" in u for u in cf.get("upvars", [])):
+                bounded_inst = cf is not None and any(any("futures_channel::mpsc::Sender<" in u for u in caps) for caps in chan.concrete_instances(fx, cf))
+                if kind == "waiting" and cf and bounded_inst:
                     n_wait_total[0] += 1
                     cos = [fx.fn(st["r"]["def"]) for _bi, _si, st in agg_sites(ctx.body(fx, cf), ak="coroutine")]
                     ctx.require(len(cos) == 1, "R12.2", "waiting-send-shape:%s@%s" % (cf["def"], cfg), "the bounded waiting closure must return one async block that awaits SinkExt::send on its own clone of the Sender (a Sender handle has a single waker slot: waiters sharing one handle lose wake-ups); found %d async blocks" % len(cos), fn=cf["def"], site=cf["loc"])
                     for co in cos:
                         cb = ctx.body(fx, co)
                         enq = [(ebi, et) for ebi, et in cb.normal_calls() if chan.is_enqueue(et)]
-                        ok = len(enq) == 1 and enq[0][1]["callee"] == "futures_util::sink::SinkExt::send" and "futures_channel::mpsc::Sender<" in enq[0][1]["argtys"][0]
+                        gen_ = set((fx.fn(cf.get("root", cf["def"])) or {}).get("generics") or [])
+                        recv_ty = enq[0][1]["argtys"][0] if enq else ""
+                        ok = len(enq) == 1 and enq[0][1]["callee"] == "futures_util::sink::SinkExt::send" and ("futures_channel::mpsc::Sender<" in recv_ty or recv_ty.replace("&mut ", "") in gen_)
                         awaited = False
                         fresh = False
                         if ok:
